@@ -134,10 +134,9 @@ impl Parser {
         // Figuring out which modules are direct child of root module
         let parent_module_file_name = self.extract_filename(&self.main_module_path);
         let child_modules_paths = self.extract_all_import_paths(&self.tokens)?;
-        let child_modules_file_name = self.extract_filenames(&child_modules_paths);
         let mut new_childs: Vec<String> = Vec::new();
-        for new_child_name in child_modules_file_name {
-            new_childs.push(new_child_name);
+        for new_child_path in child_modules_paths {
+            new_childs.push(new_child_path);
         }
         self.parent_child_relationship.insert(parent_module_file_name.clone(), new_childs);
 
@@ -224,41 +223,10 @@ impl Parser {
     // but unnamed module import feature was removed
     // that's why this functions name is named_module_import instead of import_module
     fn named_module_import(&mut self, module_import_name: Vec<char>) -> Result<(), PakhiErr> {
-        // skipping module name identifier token and equal token
-        self.current += 2;
-
-        let module_path = match  *self.kind_at(self.current) {
-            TokenKind::String(ref path) => {
-                let mut concated_module_path = Path::new(path).to_path_buf();
-                self.current += 1;
-
-                while *self.kind_at(self.current) != TokenKind::Semicolon {
-                    match *self.kind_at(self.current) {
-                        TokenKind::String(ref p) => {
-                            let rest_of_the_path = Path::new(p);
-                            concated_module_path = concated_module_path.join(rest_of_the_path);
-                            self.current += 1;
-                        },
-                        TokenKind::Plus => {
-                            self.current += 1;
-                        },
-                        _ => {
-                            let (line, file_name) = self.extract_err_meta()?;
-                            return Err(PakhiErr::SyntaxError(line, file_name,
-                                          "Module path must be static string literal".to_string()));
-                        }
-                    }
-                }
-
-                concated_module_path.to_str().unwrap().to_string()
-            },
-            _ => {
-                let (line, file_name) = self.extract_err_meta()?;
-                return Err(PakhiErr::SyntaxError(line, file_name,
-                                          "Module path must be static string literal".to_string()));
-            },
-        };
-
+        // self.current points to module name identifier token, so import statement starts
+        // one token earlier. After this self.current will point to semicolon of import statement
+        let (module_path, semicolon_index) = self.import_path_at(&self.tokens, self.current - 1)?;
+        self.current = semicolon_index;
 
         // checking if importing file with .pakhi
         if !module_path.ends_with(".pakhi") {
@@ -267,30 +235,21 @@ impl Parser {
                                              "Not a valid module file name".to_string()));
         }
         let imported_tokens = self.get_tokens_from_module(&module_path, module_import_name)?;
-        let parent_module_file_name = self.extract_filename(&module_path);
         let child_modules_paths = self.extract_all_import_paths(&imported_tokens)?;
-        let child_modules_file_name = self.extract_filenames(&child_modules_paths);
 
-        // Checking for cyclic module dependency
-        // and figuring out who is parent of which modules
-        match self.parent_child_relationship.get_mut(&*parent_module_file_name) {
-            Some(childs) => {
-                for new_child_name in child_modules_file_name {
-                    if childs.contains(&new_child_name) {
-                        return Err(PakhiErr::RuntimeError(0, "".to_string(),
-                            format!("Cyclic module dependency. Can't import {} from {}",
-                                    parent_module_file_name, new_child_name)));
-                    }
-                    childs.push(new_child_name);
-                }
-            },
-            None => {
-                let mut new_childs: Vec<String> = Vec::new();
-                for new_child_name in child_modules_file_name {
-                    new_childs.push(new_child_name);
-                }
-                self.parent_child_relationship.insert(parent_module_file_name.clone(), new_childs);
+        // Figuring out who is parent of which modules. Every module path is relative to
+        // root module's directory, so module path identifies module
+        let childs = self.parent_child_relationship.entry(module_path.clone()).or_insert(Vec::new());
+        for new_child_path in child_modules_paths {
+            if !childs.contains(&new_child_path) {
+                childs.push(new_child_path);
             }
+        }
+        // Checking for cyclic module dependency
+        if let Some(child_path) = self.child_that_imports_back(&module_path) {
+            return Err(PakhiErr::RuntimeError(0, "".to_string(),
+                format!("Cyclic module dependency. Can't import {} from {}",
+                        self.extract_filename(&module_path), self.extract_filename(&child_path))));
         }
 
         // tokens is inserted after whole module import statement
@@ -302,6 +261,67 @@ impl Parser {
             insert_token_at += 1;
         }
         Ok(())
+    }
+
+    // Module dependency is cyclic if module can be reached again by following recorded imports
+    // of its childs. Returns child that leads back to module
+    fn child_that_imports_back(&self, module_path: &String) -> Option<String> {
+        let childs = self.parent_child_relationship.get(module_path)?;
+        for child in childs {
+            let mut visited: Vec<&String> = Vec::new();
+            let mut to_visit: Vec<&String> = vec![child];
+            while let Some(m) = to_visit.pop() {
+                if m == module_path {
+                    return Some(child.clone());
+                }
+                if visited.contains(&m) {
+                    continue;
+                }
+                visited.push(m);
+                if let Some(grand_childs) = self.parent_child_relationship.get(m) {
+                    for c in grand_childs {
+                        to_visit.push(c);
+                    }
+                }
+            }
+        }
+        None
+    }
+
+    // Reads module path of import statement which starts at import_stmt_start_index
+    // মডিউল name = "dir/" + "file.pakhi";
+    // Returns module path and index of semicolon token of import statement
+    fn import_path_at(&self, tokens: &Vec<Token>, import_stmt_start_index: usize) -> Result<(String, usize), PakhiErr> {
+        let err_at = |i: usize| -> PakhiErr {
+            match tokens.get(i) {
+                Some(t) => PakhiErr::SyntaxError(t.line, t.src_file_path.clone(),
+                                                 "Module path must be static string literal".to_string()),
+                None => PakhiErr::UnexpectedError("Unexpected error, probably missing ';'".to_string()),
+            }
+        };
+
+        // skipping module keyword, module name identifier and equal token
+        let mut i = import_stmt_start_index + 3;
+        let mut concated_module_path = match tokens.get(i).map(|t| &t.kind) {
+            Some(TokenKind::String(path)) => Path::new(path).to_path_buf(),
+            _ => return Err(err_at(i)),
+        };
+        i += 1;
+        loop {
+            match tokens.get(i).map(|t| &t.kind) {
+                Some(TokenKind::Semicolon) => break,
+                Some(TokenKind::String(p)) => {
+                    concated_module_path = concated_module_path.join(Path::new(p));
+                    i += 1;
+                },
+                Some(TokenKind::Plus) => {
+                    i += 1;
+                },
+                _ => return Err(err_at(i)),
+            }
+        }
+
+        Ok((concated_module_path.to_str().unwrap().to_string(), i))
     }
 
     fn get_tokens_from_module(&self, path: &String, prepend: Vec<char>) -> Result<Vec<Token>, PakhiErr> {
@@ -418,26 +438,14 @@ impl Parser {
         file_name.to_string()
     }
 
-    fn extract_filenames(&self, paths: &Vec<String>) -> Vec<String> {
-        let mut file_names: Vec<String> = Vec::new();
-        for path in paths {
-            file_names.push(self.extract_filename(path));
-        }
-        file_names
-    }
-
     fn extract_all_import_paths(&self, tokens: &Vec<Token>) -> Result<Vec<String>, PakhiErr> {
         let import_stmt_start_token_indexes = self.find_all_imports_start(tokens);
         let mut modules_paths: Vec<String> = Vec::new();
         for i in import_stmt_start_token_indexes {
-            let module_paths = self.get_module_path_from_import_stmt(tokens, i);
-            match module_paths {
-                Ok(path) => modules_paths.push(path),
-                Err(e) => return Err(e),
-            }
+            let (module_path, _) = self.import_path_at(tokens, i)?;
+            modules_paths.push(module_path);
         }
-        let file_names = self.extract_filenames(&modules_paths);
-        return Ok(file_names);
+        return Ok(modules_paths);
     }
 
     fn find_all_imports_start(&self, tokens: &Vec<Token>) -> Vec<usize> {
@@ -448,22 +456,6 @@ impl Parser {
             }
         }
         all_imports_starting_token_index
-    }
-
-    fn get_module_path_from_import_stmt(&self, tokens: &Vec<Token>,
-                                        import_stmt_start_index: usize) -> Result<String, PakhiErr>
-    {
-        let import_path_offset = 3;
-        match tokens[import_stmt_start_index + import_path_offset].kind.clone() {
-            TokenKind::String(import_path) => {
-                return Ok(self.extract_filename(&import_path));
-            },
-            _ => {
-                let (line, file_name) = self.extract_err_meta()?;
-                return Err(PakhiErr::SyntaxError(line, file_name,
-                                                 "import path is not valid".to_string()));
-            },
-        }
     }
 
     fn comment_block(&mut self) -> Result<Stmt, PakhiErr> {
